@@ -37,7 +37,7 @@ ASSUMPTIONS = [
 
 
 def budget(tier):
-    return 400 if tier == "quick" else 20000
+    return 800 if tier == "quick" else 20000
 
 
 NAMES = ["vmware.extra", "a", "x.y", "vmware.flags", "build", "ключ", "n1", "n2", "blob", "float.val"]
